@@ -108,6 +108,10 @@ pub const KITS: &[Kit] = &[
               Form { kind: FormKind::Md, open: "\"", close: "\"", cont: "", family: 0, quote: '\'', pre: "", post: "" },
               Form { kind: FormKind::Md, open: "'", close: "'", cont: "", family: 0, quote: '"', pre: "", post: "" },
               Form { kind: FormKind::Block, open: "<!--", close: "-->", cont: "", family: 1, quote: '"', pre: "", post: "" },
+              // An HTML comment that opens a block quote (the HTML block does not start in the first
+              // column); one-line layouts only. (A list item would turn the indented-code decoy that
+              // may follow it into content of the item.)
+              Form { kind: FormKind::Block, open: "<!--", close: "-->", cont: "", family: 1, quote: '"', pre: "> ", post: "" },
           ], blank_between: true, indent_ok: false },
     Kit { grammar: "php", files: &["x.php", "x.phtml"], prologue: "<?php\n", epilogue: "", code: &["$x = 1;", "function f() { }"],
           decoys: &["$s = \"<block name=decoy> </block>\";", "$t = '# <block name=decoy> </block>';"],
@@ -299,6 +303,8 @@ impl<'k> Renderer<'k> {
                 let Some(f) = kit.forms.get(*form as usize) else { return false };
                 let layout_ok = match (f.kind, layout) {
                     (_, Layout::Bare) | (_, Layout::Noisy) => true,
+                    // A comment that opens a Markdown container stays on one line.
+                    (FormKind::Block, Layout::Multi(_)) if kit.blank_between && !f.pre.is_empty() => false,
                     (FormKind::Block, Layout::Multi(_)) | (FormKind::Decorated, Layout::Multi(_)) | (FormKind::Fenced, Layout::Multi(_)) => true,
                     (FormKind::Fenced, Layout::Indented) => false,
                     (_, Layout::Multi(_)) => false,
